@@ -832,6 +832,7 @@ func (d *TD) call(name string, ap *Args, fn func() error) string {
 	if d.mgr != nil {
 		by0 = d.bystanderDigest()
 	}
+	t0 := time.Now()
 	res := func() (res string) {
 		defer func() {
 			if r := recover(); r != nil {
@@ -841,6 +842,15 @@ func (d *TD) call(name string, ap *Args, fn func() error) string {
 		}()
 		return errNameT(fn())
 	}()
+	// a call that had to wait for the engine lock (tableGameOpen sleeps with it between its retries) ran against a later
+	// state than the one projected before it: the line then carries no pre-state
+	prep := &pre
+	if time.Since(t0) > 40*time.Millisecond {
+		prep = nil
+		if ap.Note == "" {
+			ap.Note = "waited"
+		}
+	}
 	dg1 := tableDigest(d.te.GetTable())
 	if d.mgr != nil {
 		d.rec.mu.Lock()
@@ -854,7 +864,7 @@ func (d *TD) call(name string, ap *Args, fn func() error) string {
 	if res == "ErrManagerTableNotFound" {
 		d.gone = true // the table has left the manager (closed / released): nothing more can be driven through it
 	}
-	d.rec.Emit("ret:"+name, *ap, res, d.te, nil, &pre, dg0 == dg1)
+	d.rec.Emit("ret:"+name, *ap, res, d.te, nil, prep, dg0 == dg1)
 	d.settle()
 	if d.rec.Events() != e0+1 {
 		d.rec.Emit("q", mkArgs(), "", d.te, nil, nil, false)
